@@ -62,13 +62,13 @@ pub(super) fn vk_waiting_holdtap(cfg: HoldTapConfig<'static>, coord: KCoord) -> 
 // A small real Layout with symbolic contents.
 // ---------------------------------------------------------------------------------------------
 #[allow(dead_code)]
-pub(super) static VK_CUSTOM_VALS: [u8; 2] = [11, 22];
+pub static VK_CUSTOM_VALS: [u8; 2] = [11, 22];
 #[allow(dead_code)]
 pub(super) static VK_SEQ_EVENTS: &[SequenceEvent<'static, u8>] = &[SequenceEvent::Tap(KeyCode::Q)];
 
 /// 3 columns x 2 rows (row 1 = virtual keys) x 3 layers.
 #[allow(dead_code)]
-pub(super) static VK_LAYERS: [[[Action<'static, u8>; 3]; 2]; 3] = [
+pub static VK_LAYERS: [[[Action<'static, u8>; 3]; 2]; 3] = [
     [
         [Action::KeyCode(KeyCode::A), Action::KeyCode(KeyCode::B), Action::Layer(1)],
         [Action::KeyCode(KeyCode::F1), Action::NoOp, Action::NoOp],
@@ -83,7 +83,7 @@ pub(super) static VK_LAYERS: [[[Action<'static, u8>; 3]; 2]; 3] = [
     ],
 ];
 #[allow(dead_code)]
-pub(super) static VK_SRC: [Action<'static, u8>; 3] = [
+pub static VK_SRC: [Action<'static, u8>; 3] = [
     Action::KeyCode(KeyCode::A),
     Action::KeyCode(KeyCode::B),
     Action::KeyCode(KeyCode::C),
@@ -130,7 +130,7 @@ pub(super) fn vk_any_state(ncol: u16) -> State<'static, u8> {
 /// constructor (`array::from_fn` in `MultiKeyBuffer::new`) is avoided.  Adding a field to `Layout` makes
 /// this fail to compile (reported as build-error = inconclusive), so it cannot silently go stale.
 #[allow(dead_code)]
-pub(super) fn vk_layout_literal<'a, const C: usize, const R: usize>(
+pub fn vk_layout_literal<'a, const C: usize, const R: usize>(
     src_keys: &'a [Action<'a, u8>; C],
     layers: &'a [[[Action<'a, u8>; C]; R]],
 ) -> Layout<'a, C, R, u8> {
